@@ -22,6 +22,27 @@ CLAIMED = {
              "formula is read in the code's decimal arithmetic.",
         technique="Lean 4 proof (counter-coherence invariant, induction over op histories) + differential correspondence",
         ref="§7 C13"),
+    "C10": dict(
+        text="Lean 4 theorems over an executable model of UpdateExchangeRates (ballot grouping, whitelist/quorum filter, weighted "
+             "median scan, rate store update and expiry): median specification for every ballot with total power >= 2 (a submitted "
+             "positive rate, < floor(T/2) power strictly below, <= ceil(T/2) strictly above), independence from tie order / store "
+             "order / Go's unstable sort, quorum rule as an iff, end-to-end published-rate theorem per pair, expiry iff, no influence of "
+             "votes of non-bonded validators and of abstentions. Model tied to /repo by differential execution of the real keeper on "
+             "generated validator sets, votes and parameters.",
+        note="Trusted: Lean kernel; harness; staking keeper API (bondedness, power, total bonded) as observed; LegacyDec model "
+             "validated by the dec correspondence. Median bounds and abstention no-influence need T >= 2 (witness theorem for T < 2).",
+        technique="Lean 4 proof (scan invariant + uniqueness of the scan specification under permutation) + differential correspondence",
+        ref="§7 C10"),
+    "C12": dict(
+        text="Lean 4 theorems over the same end-of-period model plus SlashAndResetMissCounters, rewardWinners, Gather/AllocateRewards: "
+             "miss counts change only through a positive out-of-band vote on a quorum pair; the slash set is exactly (counter, rate below "
+             "MinValidPerWindow, bonded, not jailed); portions are monotone in reward weight, their sum never exceeds the pot, and "
+             "solvency (module balance >= owed) is preserved by allocations and payouts. Correspondence on the real keeper with real "
+             "staking/slashing/distribution/bank keepers.",
+        note="Trusted: Lean kernel; harness; staking Slash/Jail, distribution allocation and bank transfers are parameters observed "
+             "through their APIs; single reward denom in the model.",
+        technique="Lean 4 proof (induction over the tally loop and over reward lists; integer floor inequalities) + differential correspondence",
+        ref="§7 C12"),
 }
 
 PENDING_REASON = "not claimed yet: model/proofs for this property are still being built (see DESIGN.md §9 build order)"
